@@ -1931,39 +1931,7 @@ fn main() {
         (8_000, 400_000),
         || {
             (300usize..=312, 0usize..6, any::<u64>(), 0u8..8, 0usize..3).prop_map(|(lp, gap, seed, shape, pre)| {
-                let mut r = gen::SplitMix(seed ^ 0x1e4e);
-                let mut p = Nat(gen::expand(lp, 1, seed)).big();
-                let mut q = Nat(gen::expand(lp - gap, 1, seed ^ 0x55)).big();
-                if p < q {
-                    std::mem::swap(&mut p, &mut q);
-                }
-                // quotient kinds: H = 58..64 bits, h = 61..63 bits, W = 2^64 + small, M = 2..3 words, s = small
-                let mut quot = |r: &mut gen::SplitMix, kind: char| -> BigUint {
-                    match kind {
-                        'H' => BigUint::from(r.next() >> r.below(7)).max(BigUint::one()),
-                        'h' => BigUint::from((r.next() | 1 << 63) >> (1 + r.below(3))),
-                        'W' => (BigUint::one() << 64usize) + BigUint::from(r.below(1 << 20)),
-                        'M' => BigUint::from(r.next() | 1 << 63) * BigUint::from(r.next() | 1) * if r.below(2) == 0 { BigUint::one() } else { BigUint::from(r.next()) },
-                        _ => BigUint::from(if r.below(10) < 7 { 3 } else { 1 + r.below(4) }),
-                    }
-                };
-                // read from the top of the expansion
-                let pattern: Vec<char> = match shape {
-                    0 | 1 => "hsshM".chars().collect(),
-                    2 => "HssHM".chars().collect(),
-                    3 => "hssh".chars().collect(), // the multi-word quotient comes from the tail gap
-                    4 => "hshM".chars().collect(),
-                    5 => "WssWM".chars().collect(),
-                    6 => "hssshM".chars().collect(),
-                    _ => (0..2 + r.below(6)).map(|_| ['H', 'h', 'W', 'M', 's', 's'][r.below(6) as usize]).collect(),
-                };
-                let pattern: Vec<char> = std::iter::repeat('s').take(pre).chain(pattern.into_iter()).collect();
-                for kind in pattern.iter().rev() {
-                    let k = quot(&mut r, *kind);
-                    let np = &k * &p + &q;
-                    q = p;
-                    p = np;
-                }
+                let (p, q) = gen::lehmer_quotient_pair(lp, gap, seed, shape, pre);
                 GcdCase { a: mk_int(false, Nat::from_big(&p)), b: mk_int(false, Nat::from_big(&q)), class: 0 }
             })
         },
